@@ -52,7 +52,8 @@ ASSUMPTIONS = [
     'axis (x^2+y^2 > (2 max(dx,dy))^2)']
 
 PREFIXES = ['none', 'riemann', 'riemann_evicted', 'weyl_then_riemann',
-            'eb_first', 'kretschmann', 'random']
+            'eb_first', 'kretschmann', 'random', 'faulted', 'faulted',
+            'faulted']
 POST = ['weyl', 'symmetries', 'eb_n', 'eb_u', 'tetrad', 'psi', 'invariants']
 
 
@@ -85,6 +86,22 @@ def generate(rng, tier):
         ops = [{'op': 'GET', 'key': g.pick(
             ['Kretschmann', 'st_Riemann_uddd4', 'st_RicciS',
              'Einsteindown4'])}]
+    elif pat == 'faulted':
+        # an allocation fails inside the request that builds the Weyl tensor
+        # (or one of its ingredients), late in the request where most state
+        # has accumulated; whatever is cached afterwards is what the checks
+        # below look at
+        ops = []
+        if g.chance(0.3):
+            ops.append({'op': 'GET', 'key': 'st_Riemann_down4'})
+        for _ in range(g.randint(1, 2)):
+            ops.append({'op': 'GET', 'key': g.weighted(
+                [('st_Weyl_down4', 5), ('eweyl_n_down3', 1),
+                 ('bweyl_n_down3', 1), ('Weyl_Psi', 1),
+                 ('st_Riemann_down4', 1), ('Weyl_invariants', 1)]),
+                'fault': {'kind': g.weighted([('einsum', 6), ('call', 2),
+                                              ('getitem', 2)]),
+                          'from_end': g.randint(1, 10)}})
     else:
         ops, _ = coresim.gen_ops(rng, cfg, 'C10', nmax=10)
     post = list(POST)
